@@ -349,6 +349,7 @@ DEFAULT_TLS_SPEC = dict(
     hs_secrets=True, ccs13=True, pad13=0, tickets=0, cert_len=300, ske=False,
     history=[[0, 20, 0], [1, 40, 0]],   # [dir (0 client, 1 server), plaintext length, padding amount]
     sh13_exts=0,           # order / presence of supported_versions, key_share, pre_shared_key in a TLS 1.3 ServerHello (0..4)
+    early_labels=False,    # TLS 1.3: the key log also holds CLIENT_EARLY_TRAFFIC_SECRET / EARLY_EXPORTER_SECRET lines of this connection
     hrr=0,                 # TLS 1.3: 1 = HelloRetryRequest + compatibility CCS + second ClientHello, 2 = without the CCS (content not claimed)
     share_master=0,        # != 0: the master secret is derived from this value (TLS <= 1.2 connections resumed from one session share it)
     hs_cuts=None,          # [[message index, j], ...] extra record boundaries j bytes into a message of the flight (0..4: around / inside its header)
@@ -550,6 +551,10 @@ class TlsConn:
         sec = {k: rbytes(rnd, hl) for k in ("chs", "shs", "cap", "sap")}
         self.secrets13 = sec
         cr = self.cr.hex()
+        if sp.get("early_labels"):
+            # a client that offers a PSK with early data logs these before anything else; they never protect what C01 claims
+            self.keylog.append(f"CLIENT_EARLY_TRAFFIC_SECRET {cr} {rbytes(rnd, hl).hex()}")
+            self.keylog.append(f"EARLY_EXPORTER_SECRET {cr} {rbytes(rnd, hl).hex()}")
         if sp["hs_secrets"]:
             self.keylog.append(f"CLIENT_HANDSHAKE_TRAFFIC_SECRET {cr} {sec['chs'].hex()}")
             self.keylog.append(f"SERVER_HANDSHAKE_TRAFFIC_SECRET {cr} {sec['shs'].hex()}")
